@@ -443,6 +443,9 @@ func (g *vsmGen) stepOnce() {
 			g.genProposalVote(R, P, g.c.rnd.Intn(3) != 0)
 		} else {
 			back := round(1 + g.c.rnd.Intn(3))
+			if g.c.rnd.Intn(3) == 0 {
+				back = credentialRoundLag + round(g.c.rnd.Intn(2)) // window boundary of proposalUsefulForCredentialHistory
+			}
 			if R > back {
 				g.genProposalVote(R-back, 0, g.c.rnd.Intn(3) != 0)
 			}
@@ -718,7 +721,7 @@ func TestVerifSM(t *testing.T) {
 			prefix = "nilrouter"
 			nilCases++
 		}
-		r0 := round(2 + rnd.Intn(30))
+		r0 := round(2 + rnd.Intn(40))
 		if rnd.Intn(6) == 0 {
 			r0 = round(1 + rnd.Intn(3))
 		}
